@@ -47,6 +47,20 @@ func propC13(w *World, r *Report) {
 	} else {
 		r.Fatal("(*cff.Font).Write does not resolve")
 	}
+	{
+		// the font-dictionary assignment is a function of the glyph: the
+		// FDSelect closures the reader and the subsetter build must not keep
+		// state between calls (a remembered "current range" makes the answer
+		// depend on the order of the queries)
+		var cffFns []*ssa.Function
+		for _, fn := range w.LibFuncs() {
+			if strings.HasSuffix(fnPkgPath(fn), "/cff") {
+				cffFns = append(cffFns, fn)
+			}
+		}
+		RunClosureState(w, r, cffFns)
+		r.Floor("closurestate", 2)
+	}
 	r.Rule("dicttypes: for every CFF DICT operator the Go type the writer stores (int32 / float64 / string, per operand) can carry what the reader extracts (getInt / getFloat / getString …): an operator the reader reads as a real must not be written from a float that was truncated to int32, and an operator the reader reads with getInt must not be written as a real (getInt ignores reals) || dictdefaults: where the writer omits an operator because the value equals a constant, that constant equals the default the reader substitutes || bigendian on package cff")
 	sp := w.SSAPkg[modPath+"/cff"]
 	if sp == nil {
